@@ -155,6 +155,7 @@ type Explorer struct {
 	// watchdog
 	curTrace atomic.Value // []string
 	curTick  atomic.Int64
+	done     atomic.Bool
 	outPath  string
 }
 
@@ -173,14 +174,17 @@ func (e *Explorer) watchdog() {
 	var startCPU float64
 	for {
 		time.Sleep(500 * time.Millisecond)
+		if e.done.Load() {
+			return
+		}
 		t := e.curTick.Load()
 		if t != lastTick {
 			lastTick = t
 			startCPU = cpuSeconds()
 			continue
 		}
-		if t == 0 {
-			continue
+		if t%2 == 0 {
+			continue // between transitions (oracle / bookkeeping code of the harness)
 		}
 		if cpuSeconds()-startCPU > HangCPUSeconds {
 			tr, _ := e.curTrace.Load().([]string)
@@ -353,6 +357,7 @@ func (e *Explorer) Run() Output {
 		}
 		e.stats.DepthDone = d
 	}
+	e.done.Store(true)
 	e.stats.States = len(e.seenAll)
 	e.stats.WallS = time.Since(t0).Seconds()
 	out := Output{Scenario: e.Sc.ID, Shard: e.Shard, Of: e.Of, Stats: e.stats, Samples: e.samples}
